@@ -503,6 +503,13 @@ pub fn gen_c18(rng: &mut Rng, i: u64, tier: Tier) -> Script {
             let mut pops = gen::stream_ops(rng, n + 4, style, &[0, 0, 0, 1, 2, 4, 3]);
             let cut = rng.range(0, pops.len());
             pops.truncate(cut);
+            if tp >= 30_000 && tp % 2 == 0 {
+                // window-aligned history: the earlier stream is abandoned (or finished) after output grants of
+                // exactly one or two windows, so the wrapper's ring cursor is back at 0 with nothing pending
+                let r = 1 + (tp / 2) % 3;
+                pops = (0..r).map(|j| vec![n as i64, 32768 * (1 + ((tp / 6 + j) % 2) as i64), 0]).collect();
+                s.set("window_aligned_history", 1);
+            }
             // the next stream: valid, or corrupt (incl. distances reaching before its own start)
             let tn = rng.range(0, 3000);
             let nv = valid_stream(rng, eff2 != 0, tn, 32768, None);
